@@ -7,6 +7,9 @@ Units under contract
       - `nohandler`: no handler at all (every request is unclaimed -> fallback),
       - `std_skip` : a `StandardRequestHandler` with a skiplist (GET_STATUS is not claimed -> fallback).
   * `USBRequestHandlerMultiplexer` alone with two free handler interfaces: "no claim -> outputs are the fallback's".
+  * (wiring) `USBRequestHandlerMultiplexer` with 3 free interfaces + own fallback, and with 2 + a given fallback interface:
+    every field of the RequestHandlerInterface, both directions (see "Caller-side obligations" below; these helpers are
+    also used by C06/C07/C08/C57).
 
 Observation points.  Inputs are the endpoint's interface as the device gives it (token detector events, handshake
 detector strobes, receive strobes, tx.ready).  The *setup request* is observed at the SetupPacket interface of the setup
@@ -383,8 +386,325 @@ def mux_contract(c):
     c.lemma("cover_placeholder", z3.BoolVal(True))
 
 
+# ======================================================================================================================
+#  Caller-side ("call" / wiring) obligations of the USB2 control path.
+#
+#  The leaf contracts above (and C06/C07/C08/C57) cut at interfaces: the RequestHandlerInterface between the control
+#  endpoint and its request handlers, the SetupPacket / tokenizer / timer / CRC interfaces of the setup decoder.  Their
+#  `require`s and observation points assume that the parent connects each unit the intended way.  The functions below state
+#  that, field by field, on the netlist of the REAL parents (`USBRequestHandlerMultiplexer`, `USBControlEndpoint` with its
+#  real children found by `ts.instance(...)`), as valid formulas over ALL values of every other signal and register
+#  (`c.lemma`: no invariant, no require).  They are yielded from the contract files of the properties that rely on them
+#  (C06: setup-decoder hookup; C07: request-handler interface + multiplexer; C08: commit strobes; C10: multiplexer;
+#  C57: the composition USBSerialDevice really builds).
+# ======================================================================================================================
+def flat(obj):
+    """name -> Signal for every signal of an interface object: Record fields (recursively), plain Signals and data Views
+    (`Signal(StructLayout)`).  Field lists are taken from the objects themselves, so a field added to an interface is
+    automatically part of the obligations (or trips `every_interface_field_is_classified`)."""
+    from amaranth.hdl import Signal
+    from amaranth.hdl.rec import Record
+    out = {}
+
+    def walk(prefix, x):
+        if isinstance(x, Record):
+            for fname, f in x.fields.items():
+                walk(f"{prefix}_{fname}" if prefix else fname, f)
+        elif isinstance(x, Signal):
+            out[prefix] = x
+        elif hasattr(x, "as_value") and isinstance(x.as_value(), Signal):
+            out[prefix] = x.as_value()
+    if isinstance(obj, Record):
+        walk("", obj)
+    else:
+        for k, v in vars(obj).items():
+            if not k.startswith("_"):
+                walk(k, v)
+    return out
+
+
+# RequestHandlerInterface: direction of every field as documented in its docstring (I = input to the request handler)
+RHI_TO_HANDLER_GROUPS = {            # group name -> predicate on the flat field name
+    "setup": lambda n: n.startswith("setup_"),
+    "tokenizer": lambda n: n.startswith("tokenizer_"),
+    "stage_strobes_and_config": lambda n: n in ("data_requested", "status_requested", "active_config"),
+    "handshakes_in": lambda n: n.startswith("handshakes_in_"),
+    "rx": lambda n: n in ("rx_valid", "rx_next", "rx_payload", "rx_ready_for_response", "rx_invalid"),
+}
+RHI_FROM_HANDLER_GROUPS = {
+    "tx": lambda n: n in ("tx_valid", "tx_first", "tx_last", "tx_payload"),
+    "tx_data_pid": lambda n: n == "tx_data_pid",
+    "handshakes_out": lambda n: n.startswith("handshakes_out_"),
+    "commit_strobes": lambda n: n in ("address_changed", "new_address", "config_changed", "new_config", "clear_endpoint_halt"),
+}
+RHI_SPECIAL = ("claim", "tx_ready", "rx_expected")     # claim selects; tx.ready flows back to the selected handler only;
+                                                       # rx_expected is connected nowhere in the library
+
+
+def rhi_groups(x, table):
+    f = flat(x)
+    return {g: {n: s for n, s in f.items() if pred(n)} for g, pred in table.items()}
+
+
+def rhi_unclassified(x):
+    known = set(RHI_SPECIAL)
+    for table in (RHI_TO_HANDLER_GROUPS, RHI_FROM_HANDLER_GROUPS):
+        for fields in rhi_groups(x, table).values():
+            known |= set(fields)
+    return sorted(set(flat(x)) - known)
+
+
+def wires(ts):
+    """-> (of, same).  of(sig): the signal's term; a signal that is neither driven nor read anywhere in the design is not part
+    of the netlist and rests at its reset value.  same(sink, source_term): `sink == source_term`; vacuous when nothing reads
+    (and nothing drives) `sink`, since it cannot then influence anything."""
+    from hwv.extract import BindingError
+
+    def of(sig):
+        try:
+            return ts.of(sig)
+        except BindingError:
+            return bvc(sig.init, len(sig))
+
+    def same(sink, source):
+        try:
+            v = ts.of(sink)
+        except BindingError:
+            return z3.BoolVal(True)
+        return v == source
+    return of, same
+
+
+def exactly(k, claims):
+    return z3.And(*[(cl == 1) if j == k else (cl == 0) for j, cl in enumerate(claims)])
+
+
+def mux_obligations(c, ts, shared, handler_ifs, fallback_if, names=None):
+    """The wiring a `USBRequestHandlerMultiplexer` must provide between `shared` and the handler interfaces
+    `handler_ifs` (+ the fallback's), stated on the netlist `ts` (the multiplexer alone with free interfaces, or a real
+    parent containing it together with real handlers).
+
+      * fan-out: EVERY handler (and the fallback) sees every handler-input field of `shared`, whatever anybody claims;
+      * selection: if exactly one handler claims, EVERY output field of `shared` is that handler's, for all values of the
+        other handlers' (and the fallback's) output lines; if nobody claims, they are the fallback's;
+      * `tx.ready` is passed back to the selected interface and to nobody else.
+    Several simultaneous claims are outside the documented use ("only one handler will be driving at a time"): unspecified."""
+    of, same = wires(ts)
+    names = names or [f"h{k}" for k in range(len(handler_ifs))]
+    allifs = list(zip(names, handler_ifs)) + [("fallback", fallback_if)]
+    c.lemma("every_interface_field_is_classified", z3.BoolVal(rhi_unclassified(shared) == []),
+            clause="(structural) every field of RequestHandlerInterface is covered by a wiring obligation: " + str(rhi_unclassified(shared)))
+    sh_in = rhi_groups(shared, RHI_TO_HANDLER_GROUPS)
+    for nm, x in allifs:
+        mine = rhi_groups(x, RHI_TO_HANDLER_GROUPS)
+        for g, fields in sh_in.items():
+            c.lemma(f"{nm}_sees_shared_{g}", z3.And(*[same(mine[g][f], of(s)) for f, s in fields.items()]),
+                    clause=f"every request handler sees the shared interface's {g} lines ({', '.join(fields)}), unconditionally")
+    claims = [of(x.claim) for x in handler_ifs]
+    sh_out = rhi_groups(shared, RHI_FROM_HANDLER_GROUPS)
+    cases = [(nm, x, exactly(k, claims)) for k, (nm, x) in enumerate(zip(names, handler_ifs))]
+    cases.append(("fallback", fallback_if, z3.And(*[cl == 0 for cl in claims])))
+    for nm, x, cond in cases:
+        mine = rhi_groups(x, RHI_FROM_HANDLER_GROUPS)
+        why = "no handler claims: the fallback" if nm == "fallback" else f"only {nm} claims: it"
+        for g, fields in sh_out.items():
+            c.lemma(f"{nm}_selected_drives_shared_{g}",
+                    z3.Implies(cond, z3.And(*[same(s, of(mine[g][f])) for f, s in fields.items()])),
+                    clause=f"{why} drives the shared {g} lines ({', '.join(fields)}), whatever the other interfaces carry")
+        # NOTE (as built, reported): when NO handler claims, the amaranth Encoder's `o` rests at 0, so handler 0 also sees
+        # the shared tx.ready next to the fallback; no leaf contract relies on its absence (they take tx.ready as a free
+        # input), so only the exactly-one-claim case pins the other interfaces' tx.ready to 0.
+        others = [] if nm == "fallback" else [y for _, y in allifs if y is not x]
+        c.lemma(f"{nm}_selected_gets_tx_ready",
+                z3.Implies(cond, z3.And(same(x.tx.ready, of(shared.tx.ready)), *[same(y.tx.ready, 0) for y in others])),
+                clause=f"{why} sees the shared tx.ready" + (" (and no other interface does)" if others else ""))
+
+
+def make_mux_wiring(n, own_fallback):
+    """USBRequestHandlerMultiplexer alone, `n` free handler interfaces; fallback = the StallOnlyRequestHandler the
+    multiplexer creates (own_fallback=False) or a free interface given with set_fallback_interface()."""
+    def contract(c):
+        from luna.gateware.usb.usb2.request import StallOnlyRequestHandler
+        mux = USBRequestHandlerMultiplexer()
+        ifs = [RequestHandlerInterface() for _ in range(n)]
+        for x in ifs:
+            mux.add_interface(x)
+        fb = None
+        if own_fallback:
+            fb = RequestHandlerInterface()
+            mux.set_fallback_interface(fb)
+        ports = {}
+        for k, x in enumerate(ifs):
+            ports.update({f"h{k}_{nm}": s for nm, s in flat(x).items()})
+        if fb is not None:
+            ports.update({f"fb_{nm}": s for nm, s in flat(fb).items()})
+        ports.update({f"sh_{nm}": s for nm, s in flat(mux.shared).items()})
+        ts = c.unit(mux, ports)
+        if fb is None:
+            fb = ts.instance(StallOnlyRequestHandler).interface
+            of, _ = wires(ts)
+            due = z3.Or(of(mux.shared.data_requested) == 1, of(mux.shared.status_requested) == 1)
+            c.lemma("default_fallback_only_stalls",
+                    z3.And(*[of(s) == (bv1(due) if nm == "handshakes_out_stall" else (1 if nm == "tx_data_pid" else 0))
+                             for g in rhi_groups(fb, RHI_FROM_HANDLER_GROUPS).values() for nm, s in g.items()]),
+                    clause="the fallback the multiplexer creates itself only ever STALLs (at data_requested / status_requested): "
+                           "no data, no ACK/NAK, no state change, DATA1")
+        mux_obligations(c, ts, mux.shared, ifs, fb)
+    return contract
+
+
+def control_endpoint_ports(ce):
+    """every signal of the control endpoint's EndpointInterface + the UTMI receive lines, as named ports (undriven ones
+    become free inputs; a signal that is not a port and not driven would silently be its reset value)"""
+    u = ce.utmi
+    ports = {"rx_data": u.rx_data, "rx_active": u.rx_active, "rx_valid": u.rx_valid}
+    ports.update({"i_" + n: s for n, s in flat(ce.interface).items()})
+    return ports
+
+
+def hier(ts, obj):
+    """hierarchical instance name (tuple of submodule names below the top) of a real sub-Elaboratable of the design"""
+    return tuple(ts.design.fragments[ts.design.elaboratables[obj]].name[1:])
+
+
+def control_endpoint_obligations(c, ts, ce, ep, groups, handlers=()):
+    """Wiring of the real `USBControlEndpoint` `ce` inside the netlist `ts` (the endpoint alone, or a device containing it).
+    groups ⊆ {"setup_decoder", "request_interface", "commit", "handlers"}; `handlers`: [(name, real handler object)]."""
+    from luna.gateware.usb.usb2.request import USBSetupDecoder, StallOnlyRequestHandler
+    from luna.gateware.usb.usb2.packet import USBDataPacketDeserializer
+    of, same = wires(ts)
+    i = ce.interface
+    sd = ts.instance(USBSetupDecoder)
+    mux = ts.instance(USBRequestHandlerMultiplexer)
+    rh = mux.shared                                   # the post-multiplexer RequestHandlerInterface ("request_handler")
+    ctl = ts.fsm(".".join(hier(ts, ce) + ("fsm_state",)))
+    tok = i.tokenizer
+    targeted = of(tok.endpoint) == ep
+    eq_all = lambda sink, source: z3.And(*[same(sink[n], of(source[n])) for n in sink])
+
+    if "setup_decoder" in groups:
+        c.lemma("setup_decoder_speed_is_interface_speed", same(sd.speed, of(i.speed)),
+                clause="the setup decoder's `speed` (which selects 'ACK at once' at high speed vs. 'wait for the inter-packet "
+                       "timer') is the device speed given on the endpoint interface")
+        c.lemma("setup_decoder_sees_interface_tokenizer", eq_all(flat(sd.tokenizer), flat(tok)),
+                clause="every field of the setup decoder's tokenizer interface is the endpoint interface's (the token "
+                       "detector's events: require token_detector_contract of C06)")
+        c.lemma("setup_decoder_sees_interface_timer",
+                z3.And(*[same(getattr(sd.timer, f), of(getattr(i.timer, f))) for f in ("tx_allowed", "tx_timeout", "rx_timeout")]),
+                clause="the setup decoder's tx_allowed / tx_timeout / rx_timeout are the interface's inter-packet timer outputs (C05)")
+        c.lemma("setup_decoder_starts_interface_timer", same(i.timer.start, of(sd.timer.start)),
+                clause="the interface's timer start is the setup decoder's (its only user in the control endpoint): the gap is "
+                       "measured from the end of the SETUP data packet")
+        c.lemma("setup_decoder_sees_interface_crc", z3.And(same(sd.data_crc.crc, of(i.data_crc.crc)),
+                                                           same(i.data_crc.start, of(sd.data_crc.start))),
+                clause="the setup decoder checks against the interface's shared CRC16 unit and is the one to (re)start it "
+                       "(require crc_unit_contract of C06)")
+        dh = ts.instance(USBDataPacketDeserializer)
+        c.lemma("setup_decoder_watches_the_endpoints_utmi_bus", z3.BoolVal(sd.utmi is ce.utmi and dh.utmi is ce.utmi),
+                clause="(structural) the setup decoder and its deserializer are built on the control endpoint's own UTMI bus")
+        dec = ts.fsm(".".join(hier(ts, sd) + ("fsm_state",)))
+        c.ensure("setup_decoder_arms_only_on_setup_tokens_for_this_endpoint",
+                 z3.Implies(dec.is_("IDLE"), c.nx(dec.is_("READ_DATA")) ==
+                            z3.And(of(tok.new_token) == 1, of(tok.pid) == spec.PID_SETUP, targeted)),
+                 clause="(instance parameter endpoint_number) the decoder starts reading a setup packet exactly on a SETUP token "
+                        "addressed to THIS control endpoint's number")
+        c.lemma("setup_ack_reaches_the_interface", z3.Implies(of(sd.ack) == 1, of(i.handshakes_out.ack) == 1),
+                clause="the setup decoder's ACK request is issued on the endpoint's handshake lines")
+        c.lemma("setup_packet_reaches_the_request_handlers", eq_all(flat(rh.setup), flat(sd.packet)),
+                clause="what the decoder reports (received strobe and every field) is what the request handlers are given")
+
+    ping_ack = z3.And(ctl.is_("DATA_OUT", "STATUS_OUT"), targeted, of(tok.ready_for_response) == 1, of(tok.is_ping) == 1)
+    if "request_interface" in groups:
+        c.lemma("handlers_get_decoded_setup_packet", eq_all(flat(rh.setup), flat(sd.packet)),
+                clause="the shared request-handler interface carries the setup decoder's packet: every field + received strobe")
+        c.lemma("handlers_get_interface_tokenizer", eq_all(flat(rh.tokenizer), flat(tok)),
+                clause="... and every field of the endpoint interface's tokenizer")
+        c.lemma("handlers_get_interface_handshakes_in", eq_all(flat(rh.handshakes_in), flat(i.handshakes_in)),
+                clause="... and the detected handshakes (ack / nak / stall / nyet, each its own line)")
+        c.lemma("handlers_get_active_config", same(rh.active_config, of(i.active_config)),
+                clause="... and the device's active configuration")
+        c.lemma("handler_tx_stream_is_interface_tx",
+                z3.And(*[same(getattr(i.tx, f), of(getattr(rh.tx, f))) for f in ("valid", "first", "last", "payload")],
+                       same(rh.tx.ready, of(i.tx.ready))),
+                clause="the endpoint's transmit stream is the (multiplexed) handler stream, ready flows back")
+        c.lemma("handler_data_pid_is_interface_tx_pid_toggle", same(i.tx_pid_toggle, zx(of(rh.tx_data_pid), 2)),
+                clause="the data PID of the endpoint's packets is the (multiplexed) handler's tx_data_pid")
+        c.lemma("interface_handshakes_out",
+                z3.And(same(i.handshakes_out.ack, bv1(z3.Or(of(sd.ack) == 1, of(rh.handshakes_out.ack) == 1, ping_ack))),
+                       same(i.handshakes_out.nak, of(rh.handshakes_out.nak)),
+                       same(i.handshakes_out.stall, of(rh.handshakes_out.stall))),
+                clause="ACK = setup decoder's ACK | handlers' ACK | PING probe of the stage FSM; NAK and STALL are the handlers' own "
+                       "lines (not swapped, not merged)")
+        gate = z3.And(ctl.is_("DATA_OUT"), targeted, of(tok.is_out) == 1)
+        rxpairs = [(rh.rx.valid, i.rx.valid), (rh.rx.next, i.rx.next), (rh.rx.payload, i.rx.payload),
+                   (rh.rx_ready_for_response, i.rx_ready_for_response), (rh.rx_invalid, i.rx_invalid)]
+        c.lemma("handlers_get_rx_only_in_own_out_data_stage",
+                z3.And(*[same(a, z3.If(gate, of(b), bvc(0, of(b).size()))) for a, b in rxpairs]),
+                clause="the handlers see the receive stream / rx strobes exactly while the stage is DATA_OUT and the last token is "
+                       "an OUT for this endpoint, and see nothing otherwise")
+    if "commit" in groups:
+        c.lemma("commit_strobes_are_the_handlers",
+                z3.And(same(i.address_changed, of(rh.address_changed)), same(i.new_address, of(rh.new_address)),
+                       same(i.config_changed, of(rh.config_changed)), same(i.new_config, of(rh.new_config)),
+                       same(i.clear_endpoint_halt_out.as_value(), of(rh.clear_endpoint_halt.as_value())),
+                       same(rh.active_config, of(i.active_config))),
+                clause="address_changed / new_address / config_changed / new_config / clear_endpoint_halt of the endpoint are the "
+                       "(multiplexed) request handler's, each on its own line; the handlers see the device's active configuration")
+    if "handlers" in groups:
+        # the real multiplexer inside the real endpoint, between the real handlers
+        fb = [h for h in ts.instances(StallOnlyRequestHandler) if hier(ts, h)[:-1] == hier(ts, mux)]
+        c.lemma("one_fallback_stall_handler", z3.BoolVal(len(fb) == 1 and all(fb[0] is not x for _, x in handlers)),
+                clause="(structural) the multiplexer's fallback is the StallOnlyRequestHandler it instantiates itself")
+        mux_obligations(c, ts, rh, [h.interface for _, h in handlers], fb[0].interface, names=[n for n, _ in handlers])
+        # ... end to end: what the sole claimer drives is what leaves the endpoint
+        claims = [of(h.interface.claim) for _, h in handlers]
+        for k, (nm, h) in enumerate(handlers):
+            x = h.interface
+            c.lemma(f"{nm}_sole_claimer_drives_the_endpoint_outputs",
+                    z3.Implies(exactly(k, claims), z3.And(
+                        *[same(getattr(i.tx, f), of(getattr(x.tx, f))) for f in ("valid", "first", "last", "payload")],
+                        same(i.tx_pid_toggle, zx(of(x.tx_data_pid), 2)),
+                        same(i.handshakes_out.ack, bv1(z3.Or(of(sd.ack) == 1, of(x.handshakes_out.ack) == 1, ping_ack))),
+                        same(i.handshakes_out.nak, of(x.handshakes_out.nak)), same(i.handshakes_out.stall, of(x.handshakes_out.stall)),
+                        same(i.address_changed, of(x.address_changed)), same(i.new_address, of(x.new_address)),
+                        same(i.config_changed, of(x.config_changed)), same(i.new_config, of(x.new_config)),
+                        same(i.clear_endpoint_halt_out.as_value(), of(x.clear_endpoint_halt.as_value())))),
+                    clause=f"while only {nm} claims, the endpoint's tx stream, data PID, handshakes and commit strobes are that "
+                           "handler's (whatever the other handlers' registers hold)")
+            c.lemma(f"{nm}_is_given_the_decoded_setup_packet", eq_all(flat(x.setup), flat(sd.packet)),
+                    clause=f"{nm} decodes the setup decoder's packet")
+
+
+def make_control_endpoint_wiring(composition, groups, ep=0):
+    """The real USBControlEndpoint, composed with real handlers:
+         "standard": StandardRequestHandler only (USBDevice.add_standard_control_endpoint);
+         "acm"     : StandardRequestHandler + ACMRequestHandlers + StallOnlyRequestHandler(vendor|reserved) (USBSerialDevice)."""
+    def contract(c):
+        from luna.gateware.usb.request.standard import StandardRequestHandler
+        from luna.gateware.usb.usb2.request import StallOnlyRequestHandler
+        ce = USBControlEndpoint(utmi=UTMIInterface(), endpoint_number=ep)
+        ce.add_standard_request_handlers(small_descriptors())
+        extra = []
+        if composition == "acm":
+            from luna.gateware.usb.devices.acm import ACMRequestHandlers
+            from usb_protocol.types import USBRequestType
+            extra = [("acm", ACMRequestHandlers()),
+                     ("stall_vendor", StallOnlyRequestHandler(lambda setup: (setup.type == USBRequestType.VENDOR) |
+                                                                             (setup.type == USBRequestType.RESERVED)))]
+            for _, h in extra:
+                ce.add_request_handler(h)
+        ts = c.unit(ce, control_endpoint_ports(ce))
+        handlers = [("standard", ts.instance(StandardRequestHandler))] + extra
+        control_endpoint_obligations(c, ts, ce, ep, groups, handlers)
+        if c.ensures and not c.invs:
+            c.inv("no_state_needed", z3.BoolVal(True))
+    return contract
+
+
 def contracts(tier):
     yield ("USBControlEndpoint", "standard", make("standard"))
     yield ("USBControlEndpoint", "nohandler", make("nohandler"))
     yield ("USBControlEndpoint", "std_skip", make("std_skip"))
     yield ("USBRequestHandlerMultiplexer", "two_handlers", mux_contract)
+    yield ("USBRequestHandlerMultiplexer", "wiring_3_handlers", make_mux_wiring(3, own_fallback=False))
+    yield ("USBRequestHandlerMultiplexer", "wiring_2_handlers_given_fallback", make_mux_wiring(2, own_fallback=True))
